@@ -35,6 +35,9 @@ type gen struct {
 	// time cubic in the path depth (minutes for a 5000-element path): that is
 	// resource exhaustion, outside this property, and only trips the watchdog.
 	maxKeys int
+	// pending holds the rest of a multi-message recipe: notification() hands
+	// these out first, so the messages of a recipe arrive back to back.
+	pending []*pb.Notification
 }
 
 func newGen(rng *rand.Rand, ts int64) *gen { return &gen{rng: rng, ts: ts, maxKeys: 5000} }
@@ -304,8 +307,117 @@ func (g *gen) prefixTarget(target string) string {
 	return g.pick(knownTargets)
 }
 
+// hotLeaf is one of the leaves every populated state holds, with the value it
+// was populated with.
+type hotLeaf struct {
+	origin string
+	pre    []string
+	path   *pb.Path
+	val    func() *pb.TypedValue
+}
+
+var hotLeaves = []hotLeaf{
+	{"", nil, &pb.Path{Elem: []*pb.PathElem{{Name: "a"}, {Name: "b"}}}, func() *pb.TypedValue { return tvD(1.5) }},
+	{"", []string{"a"}, &pb.Path{Elem: []*pb.PathElem{{Name: "c"}}}, func() *pb.TypedValue { return tvS("x") }},
+	{"", nil, &pb.Path{Elem: []*pb.PathElem{{Name: "b"}}}, func() *pb.TypedValue { return tvI(1) }},
+	{"", nil, &pb.Path{Elem: []*pb.PathElem{{Name: "d", Key: map[string]string{"k": "v"}}, {Name: "e"}}}, func() *pb.TypedValue { return tvB(true) }},
+	{"", nil, &pb.Path{Element: []string{"e", "f"}}, func() *pb.TypedValue { return tvD(2) }},
+	{"oc", nil, &pb.Path{Elem: []*pb.PathElem{{Name: "x"}}}, func() *pb.TypedValue { return tvS("o") }},
+}
+
+// repeatThenRejected is the recipe "a cached leaf A repeated unchanged, then a
+// part the cache rejects, in ONE non-atomic notification": with event-driven
+// emulation on, the repeat is accepted but suppressed, and the rejected part
+// that follows must not touch A (nor anything else). It returns the messages
+// to send back to back; the last one is the notification in question, the
+// earlier ones make sure A (and, for the stale variant, B) are cached.
+func (g *gen) repeatThenRejected(target string) []*pb.Notification {
+	a := hotLeaves[g.rng.Intn(len(hotLeaves))]
+	val := a.val
+	if g.chance(40) {
+		v := g.scalar(0)
+		val = func() *pb.TypedValue { return proto.Clone(v).(*pb.TypedValue) }
+	}
+	prefix := func() *pb.Path {
+		p := elemPath(a.pre)
+		p.Target, p.Origin = target, a.origin
+		return p
+	}
+	partA := func() *pb.Update { return &pb.Update{Path: proto.Clone(a.path).(*pb.Path), Val: val()} }
+	g.ts += 1000
+	t0 := g.ts
+	var out []*pb.Notification
+	if g.chance(60) { // do not rely on the state: cache A first
+		out = append(out, &pb.Notification{Timestamp: t0, Prefix: prefix(), Update: []*pb.Update{partA()}})
+	}
+	tN := t0 + int64(g.rng.Intn(2))*1000 // equal or newer than the cached one
+	var rejected []*pb.Update
+	switch g.rng.Intn(7) {
+	case 0: // below a leaf
+		p := proto.Clone(a.path).(*pb.Path)
+		if len(p.Elem) > 0 {
+			p.Elem = append(p.Elem, &pb.PathElem{Name: "under"})
+		} else {
+			p.Element = append(p.Element, "under")
+		}
+		rejected = append(rejected, &pb.Update{Path: p, Val: g.scalar(0)})
+	case 1: // a branch
+		p := proto.Clone(a.path).(*pb.Path)
+		if len(p.Elem) > 1 {
+			p.Elem = p.Elem[:len(p.Elem)-1]
+		} else if len(p.Element) > 1 {
+			p.Element = p.Element[:len(p.Element)-1]
+		} else {
+			p = &pb.Path{} // the prefix itself (or the root)
+		}
+		rejected = append(rejected, &pb.Update{Path: p, Val: g.scalar(0)})
+	case 2: // empty path (with an element-less prefix: the root)
+		rejected = append(rejected, &pb.Update{Path: &pb.Path{}, Val: g.scalar(0)})
+		if len(a.pre) > 0 || a.origin != "" {
+			rejected[0].Path = nil
+		}
+	case 3: // stale: B is cached with a newer timestamp than this notification's
+		b := &pb.Path{Elem: []*pb.PathElem{{Name: "stale"}, {Name: g.pick(plainNames)}}}
+		out = append(out, &pb.Notification{Timestamp: tN + 5000, Prefix: prefix(), Update: []*pb.Update{{Path: proto.Clone(b).(*pb.Path), Val: tvI(1)}}})
+		rejected = append(rejected, &pb.Update{Path: b, Val: tvI(2)})
+		g.ts = tN + 5000
+	case 4: // the same timestamp and content as cached: stale as well
+		b := &pb.Path{Elem: []*pb.PathElem{{Name: "same"}}}
+		out = append(out, &pb.Notification{Timestamp: tN, Prefix: prefix(), Update: []*pb.Update{{Path: proto.Clone(b).(*pb.Path), Val: tvI(1)}}})
+		rejected = append(rejected, &pb.Update{Path: b, Val: tvI(1)})
+	default: // anything the grammar draws (often rejected: meta leaves of the wrong type, no value, collisions)
+		rejected = append(rejected, g.update(g.decorate(g.encode(g.fullPath(), true))))
+	}
+	last := &pb.Notification{Timestamp: tN, Prefix: prefix()}
+	if g.chance(25) { // something accepted first
+		last.Update = append(last.Update, &pb.Update{Path: &pb.Path{Elem: []*pb.PathElem{{Name: "fresh"}, {Name: g.pick(plainNames)}}}, Val: g.scalar(0)})
+	}
+	last.Update = append(last.Update, partA())
+	last.Update = append(last.Update, rejected...)
+	if g.chance(20) {
+		last.Update = append(last.Update, g.update(g.encode(g.fullPath(), true)))
+	}
+	if g.chance(10) {
+		last.Delete = append(last.Delete, elemPath([]string{"nosuch"}))
+	}
+	if g.ts < tN {
+		g.ts = tN
+	}
+	return append(out, last)
+}
+
 // notification draws a Notification addressed (mostly) to target.
 func (g *gen) notification(target string) *pb.Notification {
+	if len(g.pending) > 0 {
+		n := g.pending[0]
+		g.pending = g.pending[1:]
+		return n
+	}
+	if g.chance(5) {
+		seq := g.repeatThenRejected(target)
+		g.pending = seq[1:]
+		return seq[0]
+	}
 	n := &pb.Notification{Timestamp: g.timestamp()}
 	full := g.fullPath()
 	origin, pre, rest := g.split(full)
